@@ -1055,7 +1055,10 @@ func (e *Engine) filterFileToBackup(r *TSMReader, fi os.FileInfo, shardRelativeP
 	}
 
 	err = w.WriteIndex()
-	if err != nil {
+	if err == ErrNoValues {
+		// No block of this file lies in the range: it adds nothing to the archive.
+		return nil
+	} else if err != nil {
 		return err
 	}
 
